@@ -198,6 +198,19 @@ CHECKS = {
         "on the data. Compilation runs concretely (NoTracing). A fresh-interpreter replay is used for violations.",
         design="4/C09",
     ),
+    "C19": dict(
+        text="graphql-core 3.2 (pure Python) is executed symbolically together with apischema's resolvers. Output: the "
+        "resolver returns a symbolic value of a model with aliased field, enum, Literal enum, list, Optional, Undefined, "
+        "nested and list of objects, flattened object and a resolver method; the all-fields query must return "
+        "serialize(T, v, aliaser=...) without conditional omissions, enums by name, Undefined as null. Arguments: symbolic "
+        "variable values for scalar / list / enum / input-object parameters; the resolver must be invoked with "
+        "deserialize(param_type, arg) and an argument that apischema rejects (schema constraints) must yield a GraphQL "
+        "error with neither the resolver nor its error handler invoked.",
+        note="ints assumed in the 32-bit range. Concrete side conditions (flagged): validate_schema empty; kinds, names, "
+        "nullability, interfaces (through intermediate classes) and argument types equal the reference mapping. "
+        "Subscriptions, async resolvers, relay helpers and id_types are outside (event loop / not built).",
+        design="4/C19",
+    ),
 }
 
 NOT_YET = "check not built yet at this commit (work in progress, see DESIGN.md section 4)"
